@@ -366,6 +366,9 @@ func TestC17(t *testing.T) {
 			// sample of the root reaches it, the root's own declarations do not
 			if !avoid["inline"] && !avoid["obj"] && !avoid["inline:obj"] && rapid.IntRange(0, 3).Draw(rt, "inline_chain") == 0 {
 				c.PostProgram = dsl.AddInlineChain
+			} else if !avoid["match"] && !avoid["obj"] && !avoid["repeat:obj"] && !avoid["dyn"] && rapid.IntRange(0, 4).Draw(rt, "match_chain") == 0 {
+				// packets without a match field of their own that hold one that has
+				c.PostProgram = dsl.AddMatchChain
 			}
 			return c, 1, v, false
 		},
